@@ -195,6 +195,11 @@ func execCaster(t *trace, script []string) {
 			go func() {
 				defer wg.Done()
 				defer sendersWG.Done()
+				defer func() {
+					if r := recover(); r != nil {
+						log.Add("panic s%d %s", a, strings.ReplaceAll(fmt.Sprint(r), " ", "_"))
+					}
+				}()
 				pmu.Lock()
 				threadOf[hk.Gid()] = fmt.Sprintf("s%d", a)
 				pmu.Unlock()
@@ -218,6 +223,11 @@ func execCaster(t *trace, script []string) {
 			ready := make(chan struct{})
 			go func() {
 				defer wg.Done()
+				defer func() {
+					if r := recover(); r != nil {
+						log.Add("panic r%d %s", i, strings.ReplaceAll(fmt.Sprint(r), " ", "_"))
+					}
+				}()
 				pmu.Lock()
 				threadOf[hk.Gid()] = fmt.Sprintf("r%d", i)
 				pmu.Unlock()
